@@ -55,11 +55,26 @@ where
     family(s, hname, "merge_many d^k", (0..=6).map(|k| (k, mck::catch(|| H::merge_many(&vec![d; k]).as_bytes()))).collect());
     let z = H::Digest::default();
     family(s, hname, "merge_many zero-digest^k", (0..=6).map(|k| (k, mck::catch(|| H::merge_many(&vec![z; k]).as_bytes()))).collect());
-    // merge_with_int on x, x+p, x+2p, x+3p where they fit 64 bits
+    // merge_with_int on x, x+p, ..., x+4p where they fit 64 bits
     let p = B::M;
     let mut ints: Vec<u64> = vec![];
-    for x in [0u128, 1, 2, 5, (1 << 32) - 1] {
-        for k in 0..4u128 {
+    // residues: small ones, and the residue of every integer within 2 of t*2^k (k = 32, 61..64) and
+    // of t*p, t <= 4 - the places where a shortcut for "divide by p" or "fits one element" can differ
+    let mut residues: Vec<u128> = vec![0, 1, 2, 5, (1 << 32) - 1];
+    for t in 0..=4u128 {
+        for base in [t << 32, t << 61, t << 62, t << 63, t << 64, t * p] {
+            for e in 0..=4u128 {
+                let v = (base + e).saturating_sub(2);
+                if v <= u64::MAX as u128 {
+                    residues.push(v % p);
+                }
+            }
+        }
+    }
+    residues.sort();
+    residues.dedup();
+    for x in residues {
+        for k in 0..5u128 {
             if x + k * p <= u64::MAX as u128 {
                 ints.push((x + k * p) as u64);
             }
@@ -78,7 +93,7 @@ where
 
 pub fn run(args: &Args) {
     let mut report = Report::new(args, "exploration");
-    let max_len = if args.tier == mck::Tier::Thorough { 400 } else { 130 };
+    let max_len = if args.tier == mck::Tier::Thorough { 1600 } else { 130 };
     type B64 = f64::BaseElement;
     type B62 = f62::BaseElement;
     let mut s = Sweep::new();
